@@ -4,10 +4,14 @@ The interpreter walks the AST of functions of /repo (never imports or runs them,
 touches numpy) and evaluates them over an abstract domain of *operand descriptors*:
 
   N(v, np)      a number.  `v` is a representative of its class (0, 0.0, 2, 2.0, 2.5, -2,
-                -2.0, -2.5, 1+2j ...); `np` marks a numpy scalar (np.float64 ...).  The only
-                predicates interpreted code may apply to an operand number are constant on the
-                classes: comparison with the literal 0, isinstance against int/float/complex/
-                Number/np.number, float.is_integer, int().  Anything else -> AnalysisError.
+                -2.0, -2.5, 1+2j, and the near-integers 2.9999999999999996 / -2.0000000000000004
+                for the non-integer class); `np` marks a numpy scalar (np.float64 ...).  The
+                predicates that are constant on the classes are: comparison with the literal 0,
+                isinstance against int/float/complex/Number/np.number, float.is_integer, int().
+                Any other comparison (with a non-zero constant, e.g. a tolerance, or between two
+                operand numbers) is evaluated on the representative and the run is marked
+                *inexact*: a differing outcome is still a concrete witness (VIOLATION), an agreeing
+                one does not discharge the class (the caller reports it as undecided).
   Arr(shape)    a MathArray.  `shape` is a tuple of dimensions, each either the integer 1 or a
                 symbol ('n', 'm', 'k': distinct symbols are distinct sizes > 1), so "same shape",
                 "square", "size 1" and "inner dimensions agree" are decided exactly.  `val` is a
@@ -298,6 +302,13 @@ def lf_product(kind, a, b):
     return {(kind, lf_frozen(a), lf_frozen(b)): 1}
 
 
+def dot_val(a, b):
+    """Value identity of np.dot(a, b); the product of two vectors is symmetric (np.dot does not conjugate)."""
+    if a.ndim == 1 and b.ndim == 1 and repr(lf_key(a.val)) > repr(lf_key(b.val)):
+        a, b = b, a
+    return lf_product('dot', a.val, b.val)
+
+
 def lf_show(lf):
     if lf is None:
         return '?'
@@ -354,6 +365,7 @@ class Trace(object):
     def __init__(self):
         self.events = []
         self.methods = []
+        self.inexact = []       # reasons why this run is a witness for its representative only, not for the whole class
 
     def add(self, kind, **kw):
         kw['kind'] = kind
@@ -770,17 +782,21 @@ class Interp(object):
         if an or bn:
             num, other = (a, b) if an else (b, a)
             if isinstance(other, N):
-                raise AnalysisError('comparison of two operand numbers in `%s` is not constant on the number classes' % short(node))
+                self.trace.inexact.append('`%s` compares two operand numbers' % short(node))
+                return self.py_compare(op, a.v, b.v, node)
             if isinstance(other, str) or other is None or isinstance(other, (tuple, list, Foreign, ClassV, Opaque)):
                 if isinstance(op, ast.Eq):
                     return False
                 if isinstance(op, ast.NotEq):
                     return True
                 raise Raised(self.builtin_exc('TypeError', 'ordering of a number and a non-number', node))
+            if not (isinstance(other, (int, float, complex)) and not isinstance(other, bool)):
+                raise AnalysisError('comparison of an operand number with `%s` in `%s`' % (describe(other), short(node)))
             if not self.is_zero_literal(other):
-                raise AnalysisError('comparison of an operand number with the non-zero constant in `%s` is not constant '
-                                    'on the number classes of the abstract domain' % short(node))
-            x, y = (num.v, 0) if an else (0, num.v)
+                # evaluated on the class representative: a differing outcome is a concrete witness, an agreeing one
+                # does not speak for the whole class
+                self.trace.inexact.append('`%s` compares an operand number with the non-zero constant %r' % (short(node), other))
+            x, y = (num.v, other) if an else (other, num.v)
             return self.py_compare(op, x, y, node)
         if isinstance(a, Foreign) or isinstance(b, Foreign):
             if isinstance(op, ast.Eq):
@@ -1037,6 +1053,13 @@ class Interp(object):
             return self.truth(args[0], node)
         if name == 'abs' and len(args) == 1 and isinstance(args[0], N):
             return N(abs(args[0].v), args[0].np)
+        if name == 'abs' and len(args) == 1 and isinstance(args[0], (int, float, complex)) and not isinstance(args[0], bool):
+            return abs(args[0])
+        if name == 'round' and len(args) == 1 and isinstance(self.lift(args[0]), N):
+            v = self.lift(args[0])
+            if v.kind == 'complex':
+                raise Raised(self.builtin_exc('TypeError', "type complex doesn't define __round__ method", node))
+            return N(round(v.v), False)
         if name in ('tuple', 'list') and len(args) <= 1:
             if not args:
                 return () if name == 'tuple' else []
@@ -1324,7 +1347,7 @@ class Interp(object):
                 self.trace.add('DOT', left=a, right=b, ok=False, node=node)
                 raise Raised(self.builtin_exc('ValueError', 'shapes not aligned', node))
             self.trace.add('DOT', left=a, right=b, ok=True, node=node)
-            val = lf_product('dot', a.val, b.val)
+            val = dot_val(a, b)
             if len(shape) == 0 and a.ndim > 0 and b.ndim > 0:
                 return N(7.0, True, val)          # numpy scalar (np.float64 / np.complex128)
             item = N(7.0) if all(d == 1 for d in shape) else None
@@ -1346,6 +1369,25 @@ class Interp(object):
             if a.size1:
                 item = N(a.item.v ** k.v)
             return Arr(a.shape, lf_atom(('mpow', lf_frozen(a.val), k.v)), item, a.singular)
+        if dotted in ('numpy.round', 'numpy.round_', 'numpy.around', 'numpy.rint', 'numpy.floor', 'numpy.ceil', 'numpy.trunc',
+                      'numpy.abs', 'numpy.absolute', 'numpy.real', 'numpy.imag') and len(args) == 1 and not kwargs \
+                and isinstance(self.lift(args[0]), N):
+            import math
+            v = self.lift(args[0]).v
+            fn = dotted.split('.')[-1]
+            if fn in ('abs', 'absolute'):
+                return N(abs(v), True)
+            if fn == 'real':
+                return N(v.real if isinstance(v, complex) else v, True)
+            if fn == 'imag':
+                return N(v.imag if isinstance(v, complex) else 0.0, True)
+            if isinstance(v, complex):
+                if fn in ('round', 'round_', 'around', 'rint'):
+                    return N(complex(round(v.real), round(v.imag)), True)
+                raise Raised(self.builtin_exc('TypeError', 'ufunc %s not supported for complex input' % fn, node))
+            r = {'round': round, 'round_': round, 'around': round, 'rint': round, 'floor': math.floor, 'ceil': math.ceil,
+                 'trunc': math.trunc}[fn](v)
+            return N(float(r), True)        # numpy rounds half to even like Python and returns a float scalar
         raise AnalysisError('call of %s is outside the numpy model of the shape interpreter (`%s`)' % (dotted, short(node, 60)))
 
 
